@@ -665,7 +665,7 @@ class Check:
         # the proof step and the families' build+run steps are independent: run them concurrently (subprocess-bound),
         # then analyse the families one after the other
         from concurrent.futures import ThreadPoolExecutor
-        with ThreadPoolExecutor(max_workers=int(os.environ.get('VERIF_PAR', '4'))) as ex:
+        with ThreadPoolExecutor(max_workers=int(os.environ.get('VERIF_PAR', '6'))) as ex:
             fut_proofs = ex.submit(self.proofs)
             futs = [(fam, ex.submit(self.prepare, fam)) for fam in spec.FAMILIES]
             proofs_ok = fut_proofs.result()
